@@ -35,4 +35,4 @@ Deliverables (write them to {base}/out/):
   * patch.diff — `git diff` of the source change ONLY (must apply with `git apply` to a clean checkout of the same commit);
   * demo.diff — a diff that adds ONLY the demonstration test/program (applies to a clean checkout too);
   * NOTES.md — which part of the property it breaks, exactly what is needed for it to manifest (input / sequence / schedule / fault point), how to run the demonstration (exact command), and the commands you ran for steps 1-4 with their outcomes.
-Leave the worktree with both diffs applied. Do not commit. Budget: aim to finish within about 75 minutes of work; do not run the whole workspace test suite more than once.""")
+Leave the worktree with both diffs applied. Do not commit. Budget: aim to finish within about 75 minutes of work; never build or test the whole workspace (disk is limited): build and test only the crates you touched (`-p <crate>`).""")
